@@ -15,13 +15,13 @@ EXTENDS IovecPipe, TLC, Json, IOUtils
 
 Rec == ndJsonDeserialize(IOEnv.TRACE)
 
-VARIABLES l, failed, viol, w, live0
-vars == <<l, failed, viol, w, live0>>
+VARIABLES l, failed, viol, w, live0, drift
+vars == <<l, failed, viol, w, live0, drift>>
 
 \* keep the violation set small (per property)
 CapViol(v, new) == v \cup {x \in new : Cardinality({y \in v : y.prop = x.prop}) < 25}
 
-Init == l = 1 /\ failed = FALSE /\ viol = {} /\ w = EmptyWorld /\ live0 = <<0, 0>>
+Init == l = 1 /\ failed = FALSE /\ viol = {} /\ w = EmptyWorld /\ live0 = <<0, 0>> /\ drift = {}
 
 When(c, S) == IF c THEN S ELSE {}
 B(x) == IF x THEN 1 ELSE 0
@@ -132,31 +132,61 @@ Step(e) ==
         w2 == IF IsConsumer(e) THEN Consume(w, e) ELSE Produce(w, e)
     IN [w |-> WithLens(w2, e), bad |-> pre \cup Observe(w2, e)]
 
+(***************************************************************************)
+(* The structural invariants of the I-spec (OwningIovecImpl.tla: AnchorSum, *)
+(* BackrefTargets, the counters) evaluated on the REAL internal state, as   *)
+(* hook H2 projects it after every operation.  Internal representation, not *)
+(* a listed property: disagreements are reported as DRIFT.                  *)
+(***************************************************************************)
+ProjComplaints(ob) ==
+  LET p == ob.proj
+      ns == Len(p.slices)
+      lensum == SumSeq([i \in 1..ns |-> p.slices[i][3]])
+  IN   When(SumSeq([i \in 1..Len(p.anchors) |-> p.anchors[i][1]]) # ns,
+            {"AnchorSum: the anchors' counts do not add up to the number of buffered slices"})
+  \cup When((ns = 0) # (p.anchors = << >>), {"slices are empty iff anchors are"})
+  \cup When(p.logical - p.consumed # ob.total \/ lensum # ob.total,
+            {"logical - consumed size / the buffered slice lengths differ from total_size"})
+  \cup When(\E i \in 1..Len(p.backrefs) :
+              LET b == p.backrefs[i]
+                  idx == b[2] - p.cslices + 1
+              IN ~(idx >= 1 /\ idx <= ns) \/ (idx >= 1 /\ idx <= ns /\ b[3] + b[4] > p.slices[idx][3]) \/ b[1] > p.logical,
+            {"BackrefTargets: a pending backref points outside the buffered slices / outside its slice"})
+  \cup When(\E i \in 1..(Len(p.backrefs) - 1) : p.backrefs[i][1] >= p.backrefs[i + 1][1],
+            {"pending backrefs are not sorted by logical end"})
+  \cup When((Len(p.backrefs) > 0) # (ob.pending = 1), {"has_pending_backrefs disagrees with the backref deque"})
+  \cup When(p.cache # << >> /\ ~(0 <= p.cache[2] /\ p.cache[2] <= p.cache[3]), {"the allocation cache's bump pointer is outside its chunk"})
+
+DriftOf(e) ==
+  IF "obs" \notin DOMAIN e \/ e.obs_panic # "" THEN {}
+  ELSE UNION {{[run |-> e.run, line |-> l, what |-> x] : x \in ProjComplaints(e.obs[i])} : i \in 1..Len(e.obs)}
+
 Next ==
   /\ l <= Len(Rec)
   /\ l' = l + 1
   /\ LET e == Rec[l] IN
      IF e.ev = "reset_after_crash" THEN      \* the process died in this run (reported by the orchestrator)
-        /\ failed' = TRUE /\ UNCHANGED <<w, viol, live0>>
+        /\ failed' = TRUE /\ UNCHANGED <<w, viol, live0, drift>>
      ELSE IF e.ev = "reset" THEN
-        /\ w' = EmptyWorld /\ failed' = FALSE /\ live0' = e.live /\ UNCHANGED viol
+        /\ w' = EmptyWorld /\ failed' = FALSE /\ live0' = e.live /\ UNCHANGED <<viol, drift>>
      ELSE IF e.ev = "end" THEN
-        /\ UNCHANGED <<w, failed, live0>>
+        /\ UNCHANGED <<w, failed, live0, drift>>
         /\ viol' = CapViol(viol, IF e.live # live0
                                  THEN {[run |-> e.run, line |-> l, prop |-> "C10",
                                         what |-> "arena chunks still live after every object was dropped"]}
                                  ELSE {})
-     ELSE IF failed THEN UNCHANGED <<w, failed, viol, live0>>
+     ELSE IF failed THEN UNCHANGED <<w, failed, viol, live0, drift>>
      ELSE LET r == Step(e) IN
           /\ w' = r.w
           /\ failed' = (r.bad # {})
           /\ live0' = live0
+          /\ drift' = (IF Cardinality(drift) >= 20 \/ r.bad # {} \/ e.panic # "" THEN drift ELSE drift \cup DriftOf(e))
           /\ viol' = CapViol(viol, {[run |-> e.run, line |-> l, prop |-> x[1], what |-> x[2]] : x \in r.bad})
 
 Spec == Init /\ [][Next]_vars
 
 Done == (l = Len(Rec) + 1) =>
           /\ PrintT(<<"TV-VIOL", ToJson(viol)>>)
-          /\ PrintT(<<"TV-DRIFT", ToJson({})>>)
+          /\ PrintT(<<"TV-DRIFT", ToJson(drift)>>)
           /\ PrintT(<<"TV-DONE", Len(Rec)>>)
 =============================================================================
